@@ -20,13 +20,39 @@ fn site_of(p: &str) -> String {
     p.rsplit(" @ ").next().unwrap_or("").to_string()
 }
 
+thread_local! {
+    /// when set to Some(k): the graphs are built with one extra vertex that is removed again, so that the vertex ids have a
+    /// gap at k (a graph after a removal: ids are not contiguous). The harness keeps working with logical ids 0..n.
+    static GAP: std::cell::Cell<Option<usize>> = const { std::cell::Cell::new(None) };
+}
+fn gap_json() -> Value {
+    json!(GAP.with(|g| g.get()))
+}
+fn actual(i: usize) -> usize {
+    match GAP.with(|g| g.get()) {
+        Some(k) if i >= k => i + 1,
+        _ => i,
+    }
+}
+fn logical(a: usize) -> Option<usize> {
+    match GAP.with(|g| g.get()) {
+        Some(k) if a == k => None,
+        Some(k) if a > k => Some(a - 1),
+        _ => Some(a),
+    }
+}
+
 fn make_graph(n: usize, edges: &[(usize, usize)]) -> Graph {
     let mut g = Graph::new();
-    for _ in 0..n {
+    let gap = GAP.with(|g| g.get());
+    for _ in 0..(n + gap.is_some() as usize) {
         g.add_vertex(VType::Z);
     }
+    if let Some(k) = gap {
+        g.remove_vertex(k);
+    }
     for &(a, b) in edges {
-        g.add_edge_with_type(a, b, EType::H);
+        g.add_edge_with_type(actual(a), actual(b), EType::H);
     }
     g
 }
@@ -148,7 +174,11 @@ fn analyse(t: &DecompTree, n: usize, edges: &[(usize, usize)]) -> Result<(usize,
         return Err("tree is not connected".into());
     }
     // leaves are exactly the graph's vertices
-    let mut lv: Vec<usize> = t.nodes.iter().filter_map(|nd| if let DecompNode::Leaf(_, v) = nd { Some(*v) } else { None }).collect();
+    let raw: Vec<usize> = t.nodes.iter().filter_map(|nd| if let DecompNode::Leaf(_, v) = nd { Some(*v) } else { None }).collect();
+    if raw.iter().any(|&a| logical(a).is_none()) {
+        return Err(format!("leaf vertices {:?} include an id that is not in the graph", raw));
+    }
+    let mut lv: Vec<usize> = raw.iter().map(|&a| logical(a).unwrap()).collect();
     lv.sort();
     if lv != (0..n).collect::<Vec<_>>() {
         return Err(format!("leaf vertices {:?} are not exactly the graph's vertices", lv));
@@ -167,7 +197,7 @@ fn analyse(t: &DecompTree, n: usize, edges: &[(usize, usize)]) -> Result<(usize,
                 let mut st = vec![i];
                 while let Some(x) = st.pop() {
                     if let DecompNode::Leaf(_, v) = t.nodes[x] {
-                        side.push(v);
+                        side.push(logical(v).unwrap());
                     }
                     for &y in &adj[x] {
                         if !seen[y] {
@@ -259,7 +289,7 @@ fn apply_move(t: &mut DecompTree, mv: &str, g: &Graph) {
 const MOVES: [&str; 5] = ["leaf_swap", "local_swap", "subtree_move", "query_width", "query_score"];
 
 fn witness(n: usize, edges: &[(usize, usize)], init: &[u32], path: &[Step]) -> Value {
-    json!({"kind": "moves", "n": n, "edges": edges, "init_script": init, "path": path.iter().map(|s| json!([s.mv, s.script])).collect::<Vec<_>>()})
+    json!({"kind": "moves", "n": n, "gap": gap_json(), "edges": edges, "init_script": init, "path": path.iter().map(|s| json!([s.mv, s.script])).collect::<Vec<_>>()})
 }
 
 /// closure of the move system on one graph; returns (states, complete)
@@ -380,7 +410,7 @@ fn explore_annealer(st: &mut Stats, n: usize, edges: &[(usize, usize)], iteratio
     for (script, end) in results {
         st.inc("evaluations");
         st.inc("transitions");
-        let w = || json!({"kind": "annealer", "n": n, "edges": es, "iterations": iterations, "adaptive": adaptive, "temp": temp, "script": script});
+        let w = || json!({"kind": "annealer", "n": n, "gap": gap_json(), "edges": es, "iterations": iterations, "adaptive": adaptive, "temp": temp, "script": script});
         let cls = format!("adaptive={}|{}", adaptive, if es.is_empty() { "edgeless" } else { "with-edges" });
         match end {
             RunEnd::DrawLimit => st.inc("pruned_retry_rounds"),
@@ -439,7 +469,7 @@ fn explore_annealer_from_all(st: &mut Stats, n: usize, edges: &[(usize, usize)],
             for (script, end) in results {
                 st.inc("evaluations");
                 st.inc("transitions");
-                let w = || json!({"kind": "annealer-from", "n": n, "edges": es, "init_script": init_script, "iterations": iterations, "adaptive": adaptive, "script": script});
+                let w = || json!({"kind": "annealer-from", "n": n, "gap": gap_json(), "edges": es, "init_script": init_script, "iterations": iterations, "adaptive": adaptive, "script": script});
                 match end {
                     RunEnd::DrawLimit => st.inc("pruned_retry_rounds"),
                     RunEnd::Panic(p) => st.violation(Violation { sig: format!("annealer-from|panic|{}", site_of(&p)), detail: p, witness: w() }),
@@ -619,7 +649,7 @@ fn explore_annealer_disagreement(st: &mut Stats, n: usize, edges: &[(usize, usiz
             for (script, end) in results {
                 st.inc("evaluations");
                 st.inc("transitions");
-                let w = || json!({"kind": "annealer-tree", "n": n, "edges": es, "tree_index": ti, "iterations": iterations, "adaptive": adaptive, "script": script});
+                let w = || json!({"kind": "annealer-tree", "n": n, "gap": gap_json(), "edges": es, "tree_index": ti, "iterations": iterations, "adaptive": adaptive, "script": script});
                 match end {
                     RunEnd::DrawLimit => st.inc("pruned_retry_rounds"),
                     RunEnd::Panic(p) => st.violation(Violation { sig: format!("annealer-from|panic|{}", site_of(&p)), detail: p, witness: w() }),
@@ -671,6 +701,35 @@ pub fn run(rep: &mut Report) {
         let complete = results.iter().all(|r| r.1);
         let stats = results.into_iter().map(|r| r.0).fold(Stats::default(), Stats::merge);
         rep.absorb(&format!("closure n={}", n), &format!("{} graphs on {} vertices ({}), every initial tree, move system explored to closure (move sequences of unbounded length)", masks.len(), n, if quick { "one per isomorphism class" } else { "all labelled graphs" }), complete, if complete { None } else { Some("state cap 400000 per graph reached".into()) }, t0, stats);
+    }
+    // the same closure on graphs whose vertex ids are not contiguous (a vertex was removed: gap at id 0 / at id 1)
+    {
+        let t0 = Instant::now();
+        let mut jobs: Vec<(usize, u32, usize)> = vec![];
+        for n in 2..=(if quick { 3usize } else { 4 }) {
+            let np = all_pairs(n).len();
+            for m in (0..(1u32 << np)).filter(|&m| canon_mask(n, m) == m) {
+                for gap in [0usize, 1] {
+                    jobs.push((n, m, gap));
+                }
+            }
+        }
+        let results: Vec<(Stats, bool)> = jobs
+            .par_iter()
+            .map(|&(n, m, gap)| {
+                GAP.with(|g| g.set(Some(gap)));
+                let (es, _) = graph_from_mask(n, m);
+                let mut st = Stats::default();
+                let c = explore_graph(&mut st, n, &es, 400_000, 10_000);
+                // and the annealer on the same graph
+                explore_annealer(&mut st, n, &es, if n >= 4 { 1 } else { 2 }, true, 5.0);
+                GAP.with(|g| g.set(None));
+                (st, c)
+            })
+            .collect();
+        let complete = results.iter().all(|r| r.1);
+        let stats = results.into_iter().map(|r| r.0).fold(Stats::default(), Stats::merge);
+        rep.absorb("closure on graphs with an id gap", &format!("{} (graph class, gap position) pairs on 2..{} vertices: the graph is built with one extra vertex that is removed again (ids 1..n or 0,2..n), then the same closure over all moves and a short annealer run", jobs.len(), if quick { 3 } else { 4 }), complete, None, t0, stats);
     }
     // 5 (and 6) vertices: bounded depth
     for (n, depth, cap) in if quick { vec![(5usize, 2usize, 60_000usize)] } else { vec![(5, 3, 400_000), (6, 2, 300_000)] } {
@@ -762,6 +821,7 @@ pub fn run(rep: &mut Report) {
 }
 
 pub fn replay(w: &Value) -> Option<Violation> {
+    GAP.with(|g| g.set(w["gap"].as_u64().map(|x| x as usize)));
     let n = w["n"].as_u64()? as usize;
     let edges: Vec<(usize, usize)> = w["edges"].as_array()?.iter().map(|e| (e[0].as_u64().unwrap() as usize, e[1].as_u64().unwrap() as usize)).collect();
     let g = make_graph(n, &edges);
